@@ -185,12 +185,36 @@ def oracleAssumptionsHold (c : Case) : Bool :=
   | none => true
   | some (_, n) => tableOk c.specArch.adjust n c.oracle.toList 0
 
+/-- Declarative file offset of the aligned start: the file offset of the section that contains the address plus
+the address's offset into that section (`C20_bytes_section`). `none` when not applicable: JITDUMP, no slice, a
+section without file data, or a section whose mapping differs from its segment's. The judge requires the window of the case to start there, so "the file's bytes at that
+address" is checked against a rule that does not mention segments (the mechanism prefers segments). -/
+def sectionOffset (c : Case) : Option Nat :=
+  if c.jit then none else
+  match c.slice with
+  | none => none
+  | some (rel, _) =>
+    match containing c.secs.toList (c.base + rel) with
+    | none => none
+    | some sec =>
+      -- only where segment and section describe the same mapping (hypothesis of `C20_bytes_section`); it fails
+      -- e.g. for the non-allocated sections with address 0 (.comment, .debug_*) that the code's "first section
+      -- containing the address" rule finds for addresses inside the ELF header
+      let consistent : Bool := match containing c.segs.toList (c.base + rel) with
+        | none => true
+        | some seg => decide (seg.addr ≤ sec.addr) && seg.fileOff + (sec.addr - seg.addr) == sec.fileOff
+      match sec.dataLen with
+      | none => none
+      | some d => if d == 0 || !consistent then none else some (sec.fileOff + (c.base + rel - sec.addr))
+
 def judge (ops impl : List String) : Bool × String :=
   let c := parse ops
   if c.bad then (false, "bad-op") else
   -- 0. the decoder oracle of this case satisfies the assumptions of the theorems (OracleOK, OracleTail)
   if ¬ oracleAssumptionsHold c then
     (false, "assumption violated: the decoder oracle reports an instruction of length 0 or one that extends past the slice, or reports 'invalid' (not 'exhausted') with less than one resynchronisation unit of input left")
+  else if (match sectionOffset c with | some o => o != c.lo | none => false) then
+    (false, s!"reference: the window of the case starts at file offset {c.lo}, but the section containing the start address places it at {(sectionOffset c).getD 0} (segment-based and section-based file offsets differ)")
   else
   match impl with
   | ["panic"] =>
